@@ -731,6 +731,10 @@ func c36PrecedenceClass(res *c36Result, want string) string {
 			return "cached-suffrage-refreshed-in-place-hides-" + want
 		}
 
+		if res.typ == want {
+			return "evaluated-right-rule-set-but-limiter-differs" // e.g. burst or special value of the limiter is not the rule's
+		}
+
 		return "evaluated-wrong-rule"
 	}
 
